@@ -2707,7 +2707,10 @@ class SFTPClientHandler(SFTPHandler):
         if resptype not in (FXP_STATUS, return_type):
             raise SFTPBadMessage(f'Unexpected response type: {resptype}')
 
-        result = self._packet_handlers[resptype](self, resp)
+        try:
+            result = self._packet_handlers[resptype](self, resp)
+        except PacketDecodeError as exc:
+            raise SFTPBadMessage(str(exc)) from None
 
         if result is not None or return_type is None:
             return result
